@@ -196,6 +196,51 @@ PREAMBLE = '''Definition enc_attr (a : attr_val) : val :=
   end.'''
 
 
+def sync_conflict_stream(c, tmp, n):
+    """merge_sync_conflict_datasets: the merged dataset is written back under the first name WITH THE ENGINE the
+    copies were read with, so that it loads again (with that engine) and holds every copy's data."""
+    import contextlib
+    import io
+    import xarray as xr
+    import xyzpy
+    for i in range(n):
+        rng = c.rng
+        engine = rng.choice(["h5netcdf", "joblib"])
+        ext = {"h5netcdf": ".h5", "joblib": ".dmp"}[engine]
+        d = os.path.join(tmp, f"m{i}")
+        os.makedirs(d)
+        base = os.path.join(d, "results")
+        ncopies = rng.randint(2, 3)
+        parts = []
+        for k in range(ncopies):
+            a = sorted(rng.sample(range(6), rng.randint(1, 3)))
+            ds = xr.Dataset({"out": (("a",), np.array([10.0 * x + 1 for x in a]))}, coords={"a": a})
+            parts.append(ds)
+            xyzpy.save_ds(ds, base + ("" if k == 0 else f".sync-conflict-{k}") + ext, engine=engine)
+        rep = {"stream": "merge-sync-conflict", "engine": engine, "copies": [list(map(int, p["a"].values)) for p in parts]}
+        err = None
+        try:
+            with contextlib.redirect_stdout(io.StringIO()):
+                xyzpy.manage.merge_sync_conflict_datasets(base + "*", engine=engine)
+            back = xyzpy.load_ds(base, engine=engine)
+            want = sorted({int(x) for p in parts for x in p["a"].values})
+            got = {int(x): float(v) for x, v in zip(back["a"].values, back["out"].values)}
+            left = sorted(f for f in os.listdir(d))
+        except Exception as e:  # noqa
+            err = f"{type(e).__name__}: {str(e)[:160]}"
+        c.case(json.dumps(rep, sort_keys=True), nontrivial=True, sample=rep if i % 5 == 0 else None)
+        c.count("stream", "merge-sync-conflict"); c.count("merge_engine", engine)
+        if err is not None:
+            c.violation("merged-copies-unreadable", f"after merge_sync_conflict_datasets(engine={engine!r}) the merged "
+                        f"file cannot be loaded with that engine: {err}", rep)
+        else:
+            if sorted(got) != want or any(got[x] != 10.0 * x + 1 for x in got):
+                c.violation("merged-copies-data-differ", f"merged file holds {got}, the copies held a={want}", rep)
+            if left != ["results" + ext]:
+                c.violation("merged-copies-left-files", f"directory holds {left}", rep)
+        shutil.rmtree(d, ignore_errors=True)
+
+
 def run(tier, seed):
     c = core.Check("C14", tier, seed)
     gen_st = core.regen()
@@ -228,6 +273,7 @@ def run(tier, seed):
             if mp is not None:
                 pairs.append(mp)
                 metas.append(rep)
+        sync_conflict_stream(c, tmp, 12 if tier == "quick" and not c.broken else 80)
         bad, _ = core.safe_run_cases(c, "Prelude Names GenNames", pairs, preamble=PREAMBLE)
         for i in bad:
             c.obligation_broken("correspondence Model/Names.v (regenerated) vs manage.py",
